@@ -32,7 +32,7 @@ func VH_C09_votes(n int, m int, pat int, ed int) {
 	gen := hotstuff.GetGenesis()
 	gqc := hotstuff.NewQuorumCert(nil, 0, gen.Hash())
 	B := hotstuff.VMakeBlock(hotstuff.VHash(0), gen.Hash(), gqc, &clientpb.Batch{}, 5, 1)
-	B2 := hotstuff.VMakeBlock(hotstuff.VHash(1), gen.Hash(), gqc, &clientpb.Batch{}, 5, 2)
+	B2 := hotstuff.VMakeBlock(hotstuff.VHash(1), gen.Hash(), gqc, &clientpb.Batch{}, 6, 2)
 	w.Chain.Store(B)
 	w.Chain.Store(B2)
 	msgs := [][]byte{B.ToBytes(), B2.ToBytes()}
@@ -121,7 +121,7 @@ func VH_C09_votes(n int, m int, pat int, ed int) {
 
 // C09(b): hostile votes cannot prevent the QC: h hostile votes (1- or 2-entry, everything
 // symbolic) arrive first, then honest single votes from a rotation of q distinct replicas.
-func VH_C09_hostile_then_honest(n int, h int, two int) {
+func VH_C09_hostile_then_honest(n int, h int, two int, where int) {
 	w := cert.VNewWorld(1, n, false, 0, vsymbolic(), core.WithSyncVerification())
 	q := hotstuff.QuorumSize(n)
 	el := eventloop.New(logging.VNop(), 100)
@@ -137,42 +137,52 @@ func VH_C09_hostile_then_honest(n int, h int, two int) {
 	gen := hotstuff.GetGenesis()
 	gqc := hotstuff.NewQuorumCert(nil, 0, gen.Hash())
 	B := hotstuff.VMakeBlock(hotstuff.VHash(0), gen.Hash(), gqc, &clientpb.Batch{}, 5, 1)
-	B2 := hotstuff.VMakeBlock(hotstuff.VHash(1), gen.Hash(), gqc, &clientpb.Batch{}, 5, 2)
+	B2 := hotstuff.VMakeBlock(hotstuff.VHash(1), gen.Hash(), gqc, &clientpb.Batch{}, 6, 2)
 	w.Chain.Store(B)
 	w.Chain.Store(B2)
 	msgs := [][]byte{B.ToBytes(), B2.ToBytes()}
-	for i := 0; i < h; i++ {
-		k := 1
-		if two == 1 {
-			k = 2
-		}
-		es := make([]cert.VEntry, k)
-		for j := range es {
-			es[j].Claimed = hotstuff.ID(nondetU32("claimed"))
-			es[j].Owner = nondetInt("owner")
-			vassume(es[j].Owner >= 0 && es[j].Owner <= n)
-			es[j].Msg = nondetInt("msg") & 1
-		}
-		vm.CollectVote(hotstuff.VoteMsg{ID: es[0].Claimed, PartialCert: hotstuff.NewPartialCert(w.Multi(es, msgs), B.Hash())})
-		for el.Tick(context.Background()) {
+	hostile := func() {
+		for i := 0; i < h; i++ {
+			k := 1
+			if two == 1 {
+				k = 2
+			}
+			es := make([]cert.VEntry, k)
+			for j := range es {
+				es[j].Claimed = hotstuff.ID(nondetU32("claimed"))
+				es[j].Owner = nondetInt("owner")
+				vassume(es[j].Owner >= 0 && es[j].Owner <= n)
+				es[j].Msg = nondetInt("msg") & 1
+			}
+			hh := B.Hash()
+			if nondetBool("for-the-other-block") {
+				hh = B2.Hash()
+			}
+			vm.CollectVote(hotstuff.VoteMsg{ID: es[0].Claimed, PartialCert: hotstuff.NewPartialCert(w.Multi(es, msgs), hh)})
+			for el.Tick(context.Background()) {
+			}
 		}
 	}
-	before := len(qcs)
 	start := nondetInt("start")
 	vassume(start >= 0 && start < n)
 	for i := 0; i < q; i++ {
+		if i == where {
+			hostile()
+		}
 		s := (start+i)%n + 1
 		es := []cert.VEntry{{Claimed: hotstuff.ID(s), Owner: s - 1, Msg: 0}}
 		vm.CollectVote(hotstuff.VoteMsg{ID: hotstuff.ID(s), PartialCert: hotstuff.NewPartialCert(w.Multi(es, msgs), B.Hash())})
 		for el.Tick(context.Background()) {
 		}
 	}
-	vobserve("qcs", uint64(len(qcs)))
-	if before == 0 {
-		vcover("no-qc-from-hostile-votes")
-	}
-	vassert(len(qcs) >= 1, "qc-forms-once-a-quorum-of-honest-votes-is-present")
+	nB := 0
 	for _, qc := range qcs {
 		vassert(w.Auth.VerifyQuorumCert(qc) == nil, "emitted-qc-verifies")
+		if qc.BlockHash() == B.Hash() {
+			nB++
+		}
 	}
+	vobserve("qcs", uint64(len(qcs)))
+	vcover("no-qc-from-hostile-votes")
+	vassert(nB >= 1, "qc-forms-once-a-quorum-of-honest-votes-is-present")
 }
